@@ -139,14 +139,17 @@ type global struct {
 }
 
 type Program struct {
-	d        Dialect
-	toks     []tok
-	pos      int
-	err      string
-	structs  map[string]*Type
-	typedefs map[string]*Type
-	funcs    map[string]*fn
-	globals  []*global
+	d                       Dialect
+	toks                    []tok
+	pos                     int
+	err                     string
+	structs                 map[string]*Type
+	typedefs                map[string]*Type
+	funcs                   map[string]*fn   // last definition per name
+	overload                map[string][]*fn // all definitions per name (HLSL / MSL overloads)
+	sawDefaultConstructible bool
+	Dups                    []string // redefinitions found while parsing (same function signature, struct or global name twice)
+	globals                 []*global
 	// dispatch parameters (set before Run): the invocation executed is local id (0,0,0) of
 	// workgroup WorkgroupID; workgroup memory initially holds Garbage (cyclically)
 	WorkgroupID   [3]uint32
@@ -218,6 +221,9 @@ func (p *Program) typeByName(s string) *Type {
 	}
 	if t, ok := p.typedefs[s]; ok {
 		return t
+	}
+	if s == "DefaultConstructible" && p.d != MSL {
+		return nil // only naga's MSL prelude defines it; elsewhere it is an ordinary name
 	}
 	return builtinType(s)
 }
@@ -418,12 +424,16 @@ func (p *Program) topLevel() {
 	if p.isI("struct") {
 		p.next()
 		name := p.next()
-		if name.s == "DefaultConstructible" {
+		if name.s == "DefaultConstructible" && p.d == MSL && p.structs["DefaultConstructible"] == nil && !p.sawDefaultConstructible {
+			p.sawDefaultConstructible = true
 			p.skipGroup("{", "}")
 			p.expect(";")
 			return
 		}
 		st := p.structBody(name.s)
+		if _, dup := p.structs[name.s]; dup {
+			p.Dups = append(p.Dups, "struct "+name.s+" is defined twice")
+		}
 		p.structs[name.s] = st
 		p.expect(";")
 		return
@@ -518,6 +528,16 @@ func (p *Program) topLevel() {
 			return
 		}
 		f.body = p.block()
+		sig := funcSignature(f)
+		for _, g := range p.overload[f.name] {
+			if funcSignature(g) == sig {
+				p.Dups = append(p.Dups, "function "+sig+" is defined twice")
+			}
+		}
+		if p.overload == nil {
+			p.overload = map[string][]*fn{}
+		}
+		p.overload[f.name] = append(p.overload[f.name], f)
 		p.funcs[f.name] = f
 		return
 	}
@@ -525,6 +545,11 @@ func (p *Program) topLevel() {
 	for {
 		gt := p.arraySuffix(t)
 		g := &global{name: name.s, t: gt}
+		for _, og := range p.globals {
+			if og.name == name.s {
+				p.Dups = append(p.Dups, "module-scope name "+name.s+" is declared twice")
+			}
+		}
 		if has(qs, "groupshared") || has(qs, "shared") || has(qs, "threadgroup") {
 			g.class = "shared"
 		}
@@ -941,4 +966,32 @@ func (p *Program) parsePostfix() *node {
 		}
 	}
 	return e
+}
+
+func typeKey(t *Type) string {
+	if t == nil {
+		return "?"
+	}
+	switch t.K {
+	case 'V':
+		return typeKey(t.Elem) + string(rune('0'+t.N))
+	case 'A':
+		return typeKey(t.Elem) + "[" + string(rune('0'+t.N%10)) + "]"
+	case 'M':
+		return "mat" + string(rune('0'+t.N)) + string(rune('0'+t.Rows))
+	case 'S':
+		return "struct " + t.Name
+	}
+	return t.Name
+}
+
+func funcSignature(f *fn) string {
+	s := f.name + "("
+	for i, prm := range f.params {
+		if i > 0 {
+			s += ","
+		}
+		s += typeKey(prm.t)
+	}
+	return s + ")"
 }
